@@ -184,14 +184,14 @@ def run(ctx):
                     idx = eo.kids[1].strip()
                     base = eo.kids[0]
                     core = idx.kids[0].strip() if idx.k == "field" and idx.kids else idx
-                    ok = core.k == "bin" and core.a in ("Add", "AddWithOverflow") and any(c.get("v") == 1 for c in core.consts()) and any(x.k == "var" and x.a.get("name") == "i" for x in core.walk()) and any(x.k == "arg" and x.a["name"] == "args" for x in base.walk())
+                    ok = core.k == "bin" and core.a in ("Add", "AddWithOverflow") and any(c.get("v") == 1 for c in core.consts()) and any(x.k == "var" and x.a.get("local") in C.scan_index(fn) for x in core.walk()) and any(x.k == "arg" and x.a["name"] == "args" for x in base.walk())
                 ctx.ob("R5", "executable=args[i+1]", ok, "the executable is %s; must be the token right after -exec, unchanged" % eo.fmt(), fn=fn, where=prim.site(fn, b), how="provenance slice")
                 ao = prim.origin_of_operand(fn, t.args[1]).strip()
                 ok = ao.k == "call" and ao.a["name"] == "index" and len(ao.kids) == 2 and ao.kids[1].strip().k == "agg" and "Range" in str(ao.kids[1].strip().a)
                 if ok:
                     lo, hi = [k.strip() for k in ao.kids[1].strip().kids[:2]]
                     loc = lo.kids[0].strip() if lo.k == "field" and lo.kids else lo
-                    ok = loc.k == "bin" and loc.a in ("Add", "AddWithOverflow") and any(c.get("v") == 2 for c in loc.consts()) and hi.k == "var" and hi.a.get("name") == "arg_index" and any(x.k == "arg" and x.a["name"] == "args" for x in ao.kids[0].walk())
+                    ok = loc.k == "bin" and loc.a in ("Add", "AddWithOverflow") and any(c.get("v") == 2 for c in loc.consts()) and hi.k == "var" and hi.a.get("name") is not None and any(x.k == "arg" and x.a["name"] == "args" for x in ao.kids[0].walk())
                 ctx.ob("R5", "template=args[i+2..terminator]", ok, "the template is %s; must be every token between the executable and the terminator" % ao.fmt()[:300], fn=fn, where=prim.site(fn, b), how="provenance slice")
 
 
